@@ -269,6 +269,18 @@ static inline unsigned spec_ceil_log2(uint64_t d, unsigned bits) {          /* b
   for (unsigned i = 0; i < bits; i++) if ((x >> i) & 1) w = i + 1;
   return w;
 }
+/* Granlund-Montgomery parameters computed with real (128-bit) division -- used with CONSTANT divisors only, where both the
+ * constructor under contract and this reference fold to constants */
+static inline uint64_t spec_gm_magic_real_u(uint64_t d, unsigned bits) {
+  unsigned l = spec_ceil_log2(d, bits);
+  unsigned __int128 num = ((((unsigned __int128)1) << l) - (unsigned __int128)d) << bits;
+  return (uint64_t)(num / d + 1) & spec_mask(bits);
+}
+static inline uint64_t spec_gm_magic_real_s(uint64_t absd, unsigned bits) {
+  unsigned l = spec_ceil_log2(absd, bits); if (l < 1) l = 1;
+  unsigned __int128 num = ((unsigned __int128)1) << (bits + l - 1);
+  return (uint64_t)(num / absd + 1) & spec_mask(bits);      /* + 1 - 2^bits, mod 2^bits */
+}
 /* signed: l = max(ceil(log2 |d|), 1); mp = floor(2^(N + l - 1) / |d|) + 1 - 2^N */
 static inline unsigned spec_gm_l_signed(uint64_t absd, unsigned bits) { unsigned l = spec_ceil_log2(absd, bits); return l < 1 ? 1 : l; }
 #if !defined(AVM_NATIVE) && defined(AVM_DIV_UF)
